@@ -154,6 +154,7 @@ type Checker struct {
 	propState     map[int]*propRec
 	ccProposed    map[string][]byte // context -> marshalled data
 	ccType        map[string]pb.EntryType
+	ccDropped     map[string]bool // context -> the proposing call returned an error
 	neutralBudget map[uint64]int // term -> conf-change proposals delivered to that term's leader
 	emptyByTerm   map[uint64]map[uint64]bool
 
@@ -184,6 +185,7 @@ func newChecker(c *Cluster, opt Options) *Checker {
 		propState:     map[int]*propRec{},
 		ccProposed:    map[string][]byte{},
 		ccType:        map[string]pb.EntryType{},
+		ccDropped:     map[string]bool{},
 		neutralBudget: map[uint64]int{},
 		emptyByTerm:   map[uint64]map[uint64]bool{},
 	}
